@@ -234,6 +234,45 @@ theorem estimate_ge_serialized_partial (payer : Nat) (ixs : List Ix) (ts : List 
     wireLen payer ixs true ts ≤ estimate payer ixs true (some ts) :=
   Nat.le_of_eq (estimate_eq_serialized_partial payer ixs ts hs hu).symm
 
+/-- `transaction_size` (the `HashSet` variant of `TransactionBuilder`, called with the union of the
+tables' addresses and the NUMBER of tables) equals the per-table estimate plus 34 bytes for every
+table that ends up unused. -/
+theorem estimateSet_eq_estimate (payer : Nat) (ixs : List Ix) (ts : List (List Nat)) :
+    estimateSet payer ixs true (some ts.flatten) ts.length =
+      estimate payer ixs true (some ts) +
+        (ts.length - (usedTables (lutStats payer ixs ts)).length) * 34 := by
+  have hle : (usedTables (lutStats payer ixs ts)).length ≤ ts.length := by
+    have := usedTables_length_le (lutStats payer ixs ts)
+    unfold lutStats at this ⊢
+    rw [tableStats_length] at this
+    exact this
+  unfold estimateSet estimate
+  simp only [if_true]
+  rw [← nAfter_eq_set]
+  generalize (usedTables (lutStats payer ixs ts)).length = u at *
+  generalize ts.length = n at *
+  have : n * (32 + 2) = u * (32 + 2) + (n - u) * 34 := by
+    obtain ⟨r, rfl⟩ : ∃ r, n = u + r := ⟨n - u, by omega⟩
+    rw [show u + r - u = r by omega]
+    omega
+  omega
+
+/-- `estimate ≥ serialized` for `transaction_size`: under the same guard as for the per-table
+variant (every table resolves ≤ 127 writable and ≤ 127 readonly keys, ≤ 127 tables used) the
+estimate is the serialized size plus 34 bytes per unused table, hence never below it. -/
+theorem estimateSet_ge_serialized_partial (payer : Nat) (ixs : List Ix) (ts : List (List Nat))
+    (hs : ∀ s ∈ lutStats payer ixs ts, s.1 ≤ 127 ∧ s.2 ≤ 127)
+    (hu : (usedTables (lutStats payer ixs ts)).length ≤ 127) :
+    wireLen payer ixs true ts ≤ estimateSet payer ixs true (some ts.flatten) ts.length := by
+  rw [estimateSet_eq_estimate, ← estimate_eq_serialized_partial payer ixs ts hs hu]
+  omega
+
+/-- …and without tables it is exact (v0 and legacy). -/
+theorem estimateSet_eq_serialized_no_luts (payer : Nat) (ixs : List Ix) :
+    estimateSet payer ixs false none 0 = wireLen payer ixs false [] ∧
+    estimateSet payer ixs true none 0 = estimate payer ixs true none := by
+  constructor <;> simp [estimateSet, estimate, wireLen]
+
 /-- Without lookup tables (v0 or legacy) the estimate is exactly the serialized size. -/
 theorem estimate_eq_serialized_no_luts (payer : Nat) (ixs : List Ix) :
     estimate payer ixs false none = wireLen payer ixs false [] ∧
@@ -283,6 +322,9 @@ example : (tgOptimize ⟨1232, 1, none, []⟩ true
     [⟨[⟨1, [1], [⟨1, 500, [], 8⟩], true⟩], true⟩, ⟨[⟨1, [1], [⟨2, 500, [], 8⟩], true⟩], true⟩]).length = 2 := by decide
 -- `add` rejects an oversized group
 example : addCode (tgAdd ⟨200, 14, none, []⟩ [] ⟨[⟨1, [1], [⟨1, 500, [], 150⟩], true⟩], true⟩).2 = 2 := by decide
+-- the `HashSet` variant pays 34 bytes for a table nobody uses
+example : estimateSet 1 [⟨1, 500, [⟨7, false, true⟩], 8⟩] true (some ([[7], [9]] : List (List Nat)).flatten) 2 = 249 ∧
+    wireLen 1 [⟨1, 500, [⟨7, false, true⟩], 8⟩] true [[7], [9]] = 215 := by decide
 -- one looked-up key costs 32 (table) + 2 + 1 bytes and saves 32: with a single key the table does not pay off
 example : estimate 1 [⟨1, 500, [⟨7, false, true⟩], 8⟩] true (some [[7]]) = 215 ∧
     wireLen 1 [⟨1, 500, [⟨7, false, true⟩], 8⟩] true [[7]] = 215 ∧
